@@ -582,6 +582,8 @@ type vdkScen struct {
 	stepIdx      int
 	execWas      bool // the last successful execute left the node in Executing
 	seenObs      bool
+	preObs       *DBState
+	preTime      bool
 	lastState    Status
 	lastEpoch    int
 	lastFinEpoch int
@@ -798,11 +800,13 @@ func (s *vdkScen) buckets() (cur, fin *DBState, err error) {
 // an execution that ends although the script has not decided its outcome yet = the machine was too
 // slow for the kyber phaser: the scenario is repeated with longer phases (or dropped)
 func (s *vdkScen) noteSpontaneous(pre *DBState, timeStep bool) {
-	if pre == nil || pre.State != Executing {
-		return
-	}
-	cur, _, _ := s.buckets()
-	if cur == nil || cur.State == Executing {
+	s.preObs, s.preTime = pre, timeStep
+}
+
+func (s *vdkScen) judgeSpontaneous(cur *DBState) {
+	pre, timeStep := s.preObs, s.preTime
+	s.preObs = nil
+	if pre == nil || pre.State != Executing || cur == nil || cur.State == Executing {
 		return
 	}
 	if timeStep && s.tmoID(pre.Timeout) <= s.tick && cur.State == Failed {
@@ -833,6 +837,7 @@ func (s *vdkScen) observe(f vlib.E) vlib.E {
 	if err != nil {
 		f["storeerr"] = err.Error()
 	}
+	s.judgeSpontaneous(cur)
 	if cur != nil {
 		s.seenObs, s.lastState, s.lastEpoch, s.lastFinEpoch = true, cur.State, int(cur.Epoch), -1
 		if fin != nil {
